@@ -1345,7 +1345,10 @@ PARTS.append(part_purity)
 #   * result type / ltype / shape do not depend on the dtype (reference: the float64 call);
 #   * for operands of explicit dtype, neither the dtype nor the values depend on torch.get_default_dtype();
 #   * a call that returns for float64 operands returns for the other dtypes, except for limitations of torch kernels
-#     (DT_KERNEL_LIMITS) and for mixed operand dtypes (the autograd kernels reject them: counted, not judged);
+#     (DT_KERNEL_LIMITS) and for mixed operand dtypes: binary GROUP ops on operands of different dtypes are outside the
+#     documented contract - judged as "raises, or returns the promoted dtype", on EMPTY batches (where Adj / AdjT /
+#     Jinvp return the dtype of the second operand) counted as dtype-mixed-empty-not-judged and not judged;
+#     algebra * tensor promotion is fully judged;
 #   * operands are not mutated.
 DT_NAMES = ['float64', 'float32', 'float16', 'bfloat16']
 DT_LSHAPES = [(3,), (), (0,), (2, 1, 2)]
@@ -1552,6 +1555,10 @@ def dt_judge(torch, spec, g, ls, dts, dd, rec, ref, twin, twin_dd):
         if any(k in rec['err'] for k in DT_KERNEL_LIMITS):
             return 'no-torch-kernel', None
         return 'bad', '%s raises %s although the same call with float64 operands returns' % (where, rec['err'])
+    if mixed and kinds[0] == 'G' and numel(ls) == 0:
+        # binary group ops on operands of different dtypes are outside the documented contract (they raise for every
+        # non-empty batch); on an empty batch some of them return: counted, dtype not judged
+        return 'mixed-empty-not-judged', None
     want = dt_want(torch, kinds, rule, dts, dd)
     why = {'operand': 'the (promoted) dtype of the operands', 'explicit': 'the dtype= argument', 'self': 'the dtype of the tensor modified in place',
            'default': 'the process default (documented for this constructor)'}[rule]
@@ -1621,8 +1628,10 @@ def part_dtype_outer(ctx, pp, torch, files2, meta2):
         ops = sorted({' '.join(s.split(' ')[:2]) for s in ctx.dt_skipped})
         ctx.notes.append('dtype sweep: op / dtype pairs skipped because torch has no kernel for the dtype (float16 / bfloat16) or the op is not '
                          'defined for the ltype: %s' % ', '.join(ops))
-    ctx.notes.append('dtype sweep: binary group ops with operands of different dtypes raise (autograd kernels: "expected scalar type"); '
-                     'the promoted-dtype rule is judged where a result is returned (algebra * tensor)')
+    ctx.notes.append('dtype sweep: binary group ops with operands of different dtypes raise for every non-empty batch (autograd kernels: '
+                     '"expected scalar type") and are judged as "raises, or returns the promoted dtype"; on empty batches Adj / AdjT / Jinvp return '
+                     'with the dtype of the second operand (outside the documented contract: counted under dtype-mixed-empty-not-judged); '
+                     'algebra * tensor promotion is fully judged')
 
 
 PARTS.append(part_dtype_outer)
